@@ -1051,3 +1051,4 @@ def _(ctx):
             FP.prove_path_against_def(ctx, '%s.path%d@L%d' % (fn, k, getattr(s, 'ret_line', 0)), fn, x, list(s.pc), list(s.axioms), r, defs[fn], pre)
             ctx.sides('%s.path%d' % (fn, k), s, pre)
         ctx.record('%s.paths' % fn, PROVED if n >= 1 else FAILED, 'B', 0, '%d paths outside the 1/4 window' % n)
+from contracts import spec_source as _ss; _ss.register_c02()  # noqa: provenance of the transcribed definitions (math/ffunctions.m)
